@@ -42,7 +42,7 @@ scan("C03", "unpredictable-sources", lambda: scans.unpredictable_sources(SOURCES
 
 ENV = "src/primaite/session/environment.py"
 # a configured seed seeds BOTH generators the simulation draws from (python's `random` and numpy's global generator)
-contract(f"{ENV}::set_random_seed", props=["C03"],
+contract(f"{ENV}::set_random_seed", props=["C03", "C04"],
          ensures=[("configured_seed_used", "implies(seed is not None and seed != -1 and seed >= -1, result == seed"
                                            " and n_events() == old(n_events()) + 2 and event_kind(n_events() - 2) == ev('seed_python') and event_arg(n_events() - 2, 0) == seed"
                                            " and event_kind(n_events() - 1) == ev('seed_numpy') and event_arg(n_events() - 1, 0) == seed)"),
